@@ -11,7 +11,9 @@ import subprocess
 import sys
 import tempfile
 
-NOT_BY_DESIGN = {"C09-d", "C19-c", "C19-e"}
+NOT_BY_DESIGN = {"C09-d", "C19-c", "C19-e", "C04-g", "C07-h", "C10-h", "C19-g", "C20-g"}
+# changes written against one property whose effect is a violation of another one (the check of that other property catches them)
+CROSS = {"C01-h": "C09", "C03-h": "C20"}
 
 
 def sh(cmd):
@@ -31,7 +33,7 @@ def main():
         if args and not any(a in sid for a in args):
             continue
         meta = json.load(open(os.path.join(d, "meta.json")))
-        prop = meta["breaks_property"]
+        prop = CROSS.get(sid, meta["breaks_property"])
         wt = tempfile.mkdtemp(prefix="pyhms-mut-", dir="/tmp")
         os.rmdir(wt)
         sh(f"git -C /repo worktree add -q --detach {wt} HEAD")
